@@ -22,21 +22,21 @@ GM_LOOP = {"secp256k1_surjection_genmessage": {"for (i = 0; i < n_input_tags; i+
     "invariants": "i <= n_input_tags && sha256_en.bytes == 33 * (unsigned long)i && g_fin_n == 0 && (i == 0 ==> (g_h_fresh == 1 && g_w_started == 0 && g_w_hit == 0 && sha256_en.s[0] == 0x6a09e667 && sha256_en.s[7] == 0x5be0cd19)) && (i > 0 ==> (g_h_fresh == 0 && g_w_started == 1 && g_w_b0 == 0 && g_w_s0 == 0x6a09e667 && g_w_s7 == 0x5be0cd19)) && (g_wpos < sha256_en.bytes ==> (g_w_hit == 1 && g_w_byte == verif_sj_expect)) && (g_wpos >= sha256_en.bytes ==> g_w_hit == 0)",
     "decreases": "n_input_tags - i"}}}
 UNITS = [
-    U("C11.parse", ["C11", "C07"], "harness/C11/parse.c", "h_sjp_parse", defs=["EL_MEMCPY_FAST"], assumed=["memcpy"], replace=["memcpy", CB],
+    U("C11.parse", ["C11", "C07"], "harness/C11/parse.c", "h_sjp_parse", defs=["EL_MEMCPY_FAST"], assumed=["memcpy", CB], replace=["memcpy", CB],
       functions=["secp256k1_surjectionproof_parse"], timeout=900, min_obl=252, unwind=34,
       closed_by="no loop left in the function under contract (count_bits_set replaced by its proved contract); spec loops unwound",
-      note="accept set equals the canonical-encoding spec for all byte strings of length <= 9000; memcpy replaced by the bounds+ghost-index contract"),
-    U("C11.parse_content", ["C11"], "harness/C11/parse.c", "h_sjp_parse", assumed=["memcpy"], replace=["memcpy", CB], defs=["EL_MEMCPY_FAST", "EL_CONTENT"], tier="thorough",
+      note="accept set equals the canonical-encoding spec for all byte strings of length <= 9000; memcpy replaced by the bounds + destination-relative watch contract"),
+    U("C11.parse_content", ["C11"], "harness/C11/parse.c", "h_sjp_parse", assumed=["memcpy", CB], replace=["memcpy", CB], defs=["EL_MEMCPY_FAST", "EL_CONTENT"], tier="thorough",
       functions=["secp256k1_surjectionproof_parse"], timeout=3600, min_obl=230, unwind=34,
-      note="as C11.parse plus byte-for-byte content of bitmap and signature fields (ghost index into the 8 KiB field)"),
+      note="as C11.parse plus the REPRESENTATION LINK (wire byte k of bitmap / signature -> used_inputs[k] / data[k]) that the verify/generate units, which read e0 and scalars from the object, rest on"),
     U("C11.count_bits", ["C11", "C07"], "harness/C11/count_bits.c", "h_count_bits", enforce=[CB], tier="thorough", solver="cadical",
       functions=[CB], timeout=1800, min_obl=40, unwind=34,
       closed_by="full unwinding: count <= 32 (callers pass ceil(n_inputs/8), n_inputs <= 256)",
       note="population-count equivalence is a hard SAT instance (140-220 s)"),
-    U("C11.serialize", ["C11", "C07"], "harness/C11/serialize.c", "h_sjp_serialize", defs=["EL_MEMCPY_FAST"], assumed=["memcpy"], replace=["memcpy", CB],
+    U("C11.serialize", ["C11", "C07"], "harness/C11/serialize.c", "h_sjp_serialize", defs=["EL_MEMCPY_FAST"], assumed=["memcpy", CB], replace=["memcpy", CB],
       functions=["secp256k1_surjectionproof_serialize", "secp256k1_surjectionproof_serialized_size", "secp256k1_surjectionproof_n_total_inputs", "secp256k1_surjectionproof_n_used_inputs"],
       timeout=900, min_obl=251, unwind=34, note="every valid proof object and every capacity <= 9000"),
-    U("C11.roundtrip", ["C11"], "harness/C11/serialize.c", "h_sjp_roundtrip", assumed=["memcpy"], replace=["memcpy", CB], defs=["EL_MEMCPY_FAST", "EL_MEMCPY_EXACT32"], tier="thorough",
+    U("C11.roundtrip", ["C11"], "harness/C11/serialize.c", "h_sjp_roundtrip", assumed=["memcpy", CB], replace=["memcpy", CB], defs=["EL_MEMCPY_FAST", "EL_MEMCPY_EXACT32"], tier="thorough",
       functions=["secp256k1_surjectionproof_parse", "secp256k1_surjectionproof_serialize"], timeout=5400, min_obl=314, unwind=34,
       note="serialize(parse(b)) == b for every accepted b of length <= 9000 (1070 s measured)"),
     U("C11.compute_pubkeys_noring", ["C11", "C07"], "harness/C11/pubkeys.c", "h_sjp_pubkeys", replace=["secp256k1_gej_add_ge_var"], assumed=["secp256k1_gej_add_ge_var"],
@@ -48,22 +48,22 @@ UNITS = [
       timeout=3600, min_obl=895, unwind=258, tier="thorough",
       closed_by="loop contract over the n tags (engine-supplied, no /repo edit): ring position = prefix bit count (harness table), decreases clause; harness table loops unwound",
       note="every n <= 256, every padding-free bitmap; pubkeys is an exact-size heap object so any write beyond n_used is a bounds violation"),
-    U("C11.genmessage", ["C11", "C07"], "harness/C11/genmessage.c", "h_sjp_genmessage", replace=HASH,
+    U("C11.genmessage", ["C11", "C07"], "harness/C11/genmessage.c", "h_sjp_genmessage", replace=HASH, assumed=HASH,
       loop_contracts=GM_LOOP, functions=["secp256k1_surjection_genmessage"], timeout=1800, min_obl=1600, unwind=34,
       closed_by="loop contract over the n tags (engine-supplied, no /repo edit): stream length 33 i and the watched stream byte as invariant, decreases clause",
       note="every list length 0..256; stream-level hash contract (hash_log.h)"),
     U("C11.generate_gate_b8", ["C11"], "harness/C11/generate.c", "h_sjp_generate", bounded="n_inputs<=8, n_tags<=12",
       replace=[CB, "secp256k1_surjection_compute_public_keys", "secp256k1_surjection_genmessage", "secp256k1_surjection_genrand", "secp256k1_borromean_sign"],
-      assumed=["secp256k1_surjection_genrand", "secp256k1_borromean_sign"],
+      assumed=[CB, "secp256k1_surjection_compute_public_keys", "secp256k1_surjection_genmessage", "secp256k1_surjection_genrand", "secp256k1_borromean_sign"],
       unwindset=["secp256k1_surjectionproof_generate.0:14", "secp256k1_surjectionproof_generate.1:10"],
       functions=["secp256k1_surjectionproof_generate", "secp256k1_scalar_set_b32", "secp256k1_scalar_negate", "secp256k1_scalar_add", "secp256k1_scalar_get_b32", "secp256k1_memcmp_var"],
       timeout=1800, min_obl=1166, unwind=66, tier="thorough",
       note="gates and wiring of proof generation with the tag scan and the scalar write-back loop unwound"),
-    U("C11.verify_gate_b8", ["C11", "C07"], VER, "h_sjp_verify", replace=VER_REPL, assumed=["secp256k1_borromean_verify"], defs=["EL_BOUND=8"],
-      functions=VER_FUNCS, solver="cadical", timeout=900, min_obl=679, unwind=34, bounded="n_inputs<=8",
+    U("C11.verify_gate_b8", ["C11", "C07"], VER, "h_sjp_verify", replace=VER_REPL, assumed=VER_REPL, defs=["EL_BOUND=8"],
+      functions=VER_FUNCS, timeout=900, min_obl=679, unwind=34, bounded="n_inputs<=8",
       note="scalar loop unwound for proofs over at most 8 inputs: concrete counterexample (ring position, bytes) when a gate is broken"),
-    U("C11.verify_gate", ["C11", "C07"], VER, "h_sjp_verify", replace=VER_REPL, assumed=["secp256k1_borromean_verify"],
-      loop_contracts=SJ_VERIFY_LOOP, functions=VER_FUNCS, solver="cadical", timeout=1800, min_obl=671, unwind=34, tier="quick",
+    U("C11.verify_gate", ["C11", "C07"], VER, "h_sjp_verify", replace=VER_REPL, assumed=VER_REPL,
+      loop_contracts=SJ_VERIFY_LOOP, functions=VER_FUNCS, timeout=1800, min_obl=671, unwind=34, tier="thorough",
       closed_by="loop contract on the scalar loop (engine-supplied, no /repo edit): invariant with ghost ring position, decreases clause",
       note="every valid proof object (n_inputs <= 256, up to 256 used inputs) and any tag count"),
 ]
